@@ -1,7 +1,7 @@
 CFG = dict(
     gen=['ChrootOps'],
     prop_file='Properties/C18.v',
-    coq_extra=['Chroot/Run.v'],
+    coq_extra=['Chroot/Run.v', 'Chroot/Import.v'],
     harness='c18',
     trusted=[
         "Go's path/filepath (Clean/Join/Rel/Abs on Unix) is modelled in Chroot/Path.v, not verified; the model is tied by exhaustive small-alphabet correspondence through the real ChrootFs over a recording afero.Fs",
@@ -11,7 +11,7 @@ CFG = dict(
     assumptions=['paths are compared lexically (segment-wise) after cleaning, as the property spells them; Unix separator'],
 )
 TEXT = dict(
-    level='Theorems in Coq over a segment-level model of filepath.Clean/Join/Rel: openAllowed accepts exactly the paths under the cleaned root (all roots, all spellings, unbounded length); every afero.Fs operation of the CURRENT chroot_fs.go (operation table regenerated from the source on every run) hands the inner filesystem only such paths; inside paths keep working and resolve to one file however spelled. The model is tied to the code by running the real ChrootFs over a recording filesystem on every spelling up to 4 (quick) / 6 (thorough) segments over the property\'s alphabet, for every method and both Rename arguments, and comparing with the model inside Coq.',
-    note='Trusted: Coq kernel + vm_compute; the go/ast translator that classifies each path argument as Checked/JoinedOnly/Raw; the harness. path/filepath is modelled, not verified (tied by exhaustive correspondence). Lexical confinement only (no symlinks, no remote-import cache). Import-statement resolution is not yet in the model.',
+    level='Theorems in Coq over a segment-level model of filepath.Clean/Join/Rel: openAllowed accepts exactly the paths under the cleaned root (all roots, all spellings, unbounded length); every afero.Fs operation of the CURRENT chroot_fs.go (operation table regenerated from the source on every run) hands the inner filesystem only such paths; inside paths keep working and resolve to one file however spelled. The model is tied to the code by running the real ChrootFs over a recording filesystem on every spelling up to 4 (quick) / 6 (thorough) segments over the property\'s alphabet, for every method and both Rename arguments, and comparing with the model inside Coq. Import statements (relative and rooted spellings, from any directory) and the module argument are covered end to end: theorems import_confined / import_inside_served / import_same_file over the listener\'s name construction, tied by driving loader.LoadSyslModule over a recording filesystem on ~700 (quick) / 8 000 (thorough) random spellings.',
+    note='Trusted: Coq kernel + vm_compute; the go/ast translator that classifies each path argument as Checked/JoinedOnly/Raw; the harness. path/filepath is modelled, not verified (tied by exhaustive correspondence). Lexical confinement only (no symlinks, no remote-import cache).  Remote ("//host/...") imports are outside the model (they need the network and a git cache outside afero).',
     technique='Coq proof over path model + regenerated operation table + exhaustive small-alphabet correspondence',
 )
